@@ -73,7 +73,14 @@ class OpsMixin:
             if isinstance(a, str) and _is_pint(b) and opn == "Mult":
                 return a * b
             if isinstance(a, str) and opn == "Mod":
-                return "<fmt>"
+                # printf-style formatting: computed when every argument is concrete, otherwise an unmodelled message text
+                parts = b if isinstance(b, tuple) else (b,)
+                if any(isinstance(x, (Sym, Ref)) for x in parts):
+                    return SMsg()
+                try:
+                    return a % b
+                except (TypeError, ValueError) as e:
+                    raise PyExc(type(e))
             raise Undecided("str operator %s on %r %r" % (opn, a, b))
         if isinstance(a, tuple) and isinstance(b, tuple) and opn == "Add":
             return a + b
